@@ -71,6 +71,9 @@ func c10(env *core.Env) {
 	if c.Bool("spurious401", 1, 6) {
 		h.spurious401 = 1
 	}
+	if c.Bool("revocations", 1, 4) {
+		h.revokeRate = c.Range("revocations.rate", 2, 6)
+	}
 	w := newAuthWorld(env, []*regHost{h})
 	maxLat := c.Range("latency.max", 0, 4)
 	w.latency = func() time.Duration { return time.Duration(c.Int("latency", maxLat+1)) * time.Second }
@@ -102,7 +105,7 @@ func c10(env *core.Env) {
 			plans[t] = append(plans[t], p)
 		}
 	}
-	env.Sample("creds=%s grant=%s noPOST=%v lifetimes=%v field=%s refresh-issued=%v challenge=%q spurious401=%d tasks=%d", creds, h.grant, h.noPOST, h.lifetimes, h.tokenField, h.giveRefresh, h.challengeMut, h.spurious401, ntasks)
+	env.Sample("creds=%s grant=%s noPOST=%v lifetimes=%v field=%s refresh-issued=%v challenge=%q spurious401=%d revokes 1/%d tasks=%d", creds, h.grant, h.noPOST, h.lifetimes, h.tokenField, h.giveRefresh, h.challengeMut, h.spurious401, h.revokeRate, ntasks)
 	sched := env.Sched
 	type callSpan struct{ start, end int64 }
 	spans := map[int]*callSpan{}
@@ -120,21 +123,29 @@ func c10(env *core.Env) {
 				id := nextID
 				sp := &callSpan{start: sched.Seq()}
 				spans[id] = sp
-				// which tokens are certainly in the cache when this call starts?
+				// which tokens are certainly in the cache when this call starts? (one that the
+				// registry has ever answered 401 to may have been dropped, rightly)
 				startTime := w.now()
 				var cachedOK *issuedToken
 				req := parseNaive(p.required)
 				for _, it := range w.issued {
 					s := spans[it.callID]
 					if it.host == h.name && s != nil && s.end != 0 && s.end < sp.start &&
-						it.requested.contains(req) && it.granted.contains(req) &&
+						it.requested.contains(req) && it.granted.contains(req) && !it.revoked && !it.refused &&
 						startTime.Add(30*time.Second).Before(it.issuedAt.Add(it.lifetime)) {
 						cachedOK = it
 					}
 				}
 				res := w.call(id, h.name, p.required, p.desired, false, false)
 				sp.end = sched.Seq()
-				checkC10Call(env, w, h, res, p.required, p.desired, cachedOK)
+				if cachedOK != nil && (cachedOK.refused || cachedOK.revoked) {
+					// a concurrent call was told meanwhile that the registry no longer takes it
+					cachedOK = nil
+				}
+				checkC10Call(env, w, h, res, p.required, p.desired, cachedOK, func(callID int) bool {
+					s := spans[callID]
+					return s != nil && s.end != 0 && s.end < sp.start
+				})
 				gapClass := "none"
 				switch {
 				case p.gap >= time.Minute:
@@ -151,7 +162,7 @@ func c10(env *core.Env) {
 					}
 				}
 				env.Op(fmt.Sprintf("%s|%s|gap:%s|%d|tok%d|cached:%v", p.required, p.desired, gapClass, res.status, nrealm, cachedOK != nil))
-				env.Logf("task %d call %d required=%q desired=%q gap=%v -> %d %v (%d requests out)", t, id, p.required, p.desired, p.gap, res.status, res.err, len(res.outs))
+				env.Logf("task %d call %d required=%q desired=%q gap=%v -> %d %v; sent: %s", t, id, p.required, p.desired, p.gap, res.status, res.err, describeOuts(res.outs))
 				env.Sample("task %d: required=%q desired=%q after %v -> status %d err=%v; sent: %s", t, p.required, p.desired, p.gap, res.status, res.err, describeOuts(res.outs))
 			}
 		})
@@ -178,7 +189,7 @@ func describeOuts(outs []*outReq) string {
 	return strings.Join(ss, "; ")
 }
 
-func checkC10Call(env *core.Env, w *authWorld, h *regHost, res *callResult, required, desired string, cachedOK *issuedToken) {
+func checkC10Call(env *core.Env, w *authWorld, h *regHost, res *callResult, required, desired string, cachedOK *issuedToken, knewBefore func(callID int) bool) {
 	reqSet, desSet := parseNaive(required), parseNaive(desired)
 	var lastChallenge *outReq
 	realmSeen := 0
@@ -211,7 +222,10 @@ func checkC10Call(env *core.Env, w *authWorld, h *regHost, res *callResult, requ
 							env.Failf("C10/token-narrower-than-challenge", "the token acquired in answer to challenge scope %q was requested for %s only. %s", lastChallenge.challengeScope, it.requested, describeOuts(res.outs))
 						}
 					}
-					if o.status == 401 && it.granted.contains(reqSet) {
+					if o.status == 401 && it.granted.contains(reqSet) && !(it.revoked && it.revokedIn != res.id && knewBefore(it.revokedIn)) {
+						// (a token the registry turned down in a call that had returned before this one
+						// began is not a surprise; while that call is still on its way back - it may be
+						// waiting for the lock this call took first - the transport cannot know yet)
 						spurious = true
 					}
 				}
